@@ -5,6 +5,7 @@ import Vivid.Engine.Mailbox
 import Vivid.Engine.View
 import Vivid.Engine.Codec
 import Vivid.Engine.ActorSys
+import Vivid.Engine.SysFSM
 
 open Vivid.Engine
 
@@ -14,7 +15,8 @@ def engines : List (String × Engine) := [
   ("mailbox", MailboxEngine.engine),
   ("view", ViewEngine.engine),
   ("codec", CodecEngine.engine),
-  ("actorsys", ActorSysEngine.engine)
+  ("actorsys", ActorSysEngine.engine),
+  ("sysfsm", SysFSMEngine.engine)
 ]
 
 partial def loop (h : IO.FS.Stream) (out : IO.FS.Stream) (e : Engine) (s : e.σ) : IO Unit := do
